@@ -611,6 +611,11 @@ func scanLevelIdx(c *core.Ctx) []ob {
 			var foreign []string
 			for k := range se {
 				if strings.HasSuffix(k, ".Level()") && !sl[k] {
+					// the level of the indexed ring itself (`top := ringQ.Level()` … `ringQ.SubRings[top-i]`) is the level it
+					// was cut at
+					if k == rid.Name+".Level()" {
+						continue
+					}
 					foreign = append(foreign, k)
 				}
 			}
@@ -922,6 +927,25 @@ func scanOutLevel(c *core.Ctx) []ob {
 					}
 					defs = append(defs, ldef{o, bs, false, as.Pos(), ""})
 				}
+			} else if acc := levelAccessorOf(info, as); acc != nil {
+				// `level, ringQ := eval.workingLevelAndRing(ctIn, opOut)`: the helper returns the minimum of the levels of
+				// the elements it receives — the same working level, defined one call away
+				call := unparen(as.Rhs[0]).(*ast.CallExpr)
+				if id, ok := as.Lhs[acc.result].(*ast.Ident); ok && id.Name != "_" {
+					bs := map[string]bool{}
+					for _, pi := range acc.params {
+						if pi < len(call.Args) {
+							bs[exprString(unparen(call.Args[pi]))] = true
+						}
+					}
+					o := info.Defs[id]
+					if o == nil {
+						o = info.Uses[id]
+					}
+					if len(bs) >= 2 && o != nil {
+						defs = append(defs, ldef{o, bs, false, as.Pos(), ""})
+					}
+				}
 			} else if len(as.Rhs) == 1 && len(as.Lhs) == 3 {
 				call, ok := unparen(as.Rhs[0]).(*ast.CallExpr)
 				if !ok || !strings.HasPrefix(calleeName(info, call), "InitOutput") || len(call.Args) == 0 {
@@ -947,6 +971,9 @@ func scanOutLevel(c *core.Ctx) []ob {
 		})
 		if strings.HasPrefix(fd.Name.Name, "InitOutput") {
 			return
+		}
+		if fo, ok := info.Defs[fd.Name].(*types.Func); ok && levelAccessors(fo) != nil {
+			return // it returns the working level to its caller, which is held to the rule
 		}
 		// anonymous working levels: Min(x.Level(), y.Level()) used directly as an argument
 		{
@@ -1305,4 +1332,129 @@ func outLevelResizers(c *core.Ctx) map[*types.Func]map[int]bool {
 	}
 	outLevelResizersCache[c.Program] = res
 	return res
+}
+
+// levelAccessor: a helper of the module that returns, as result number `result`, the minimum of the levels of the
+// element parameters numbered `params`.
+type levelAccessor struct {
+	result int
+	params []int
+}
+
+var levelAccessorCache = map[*types.Func]*levelAccessor{}
+var levelAccessorSeen = map[*types.Func]bool{}
+
+func levelAccessors(f *types.Func) *levelAccessor {
+	f = funcOrigin(f)
+	if levelAccessorSeen[f] {
+		return levelAccessorCache[f]
+	}
+	levelAccessorSeen[f] = true
+	fd := fnDecls[f]
+	if fd == nil || fd.Body == nil || fd.Name.IsExported() || fd.Type.Results == nil {
+		return nil
+	}
+	sig := f.Type().(*types.Signature)
+	// small helpers only: a definition of the level and a return
+	if len(fd.Body.List) > 4 {
+		return nil
+	}
+	pidx := map[string]int{}
+	for i := 0; i < sig.Params().Len(); i++ {
+		pidx[sig.Params().At(i).Name()] = i
+	}
+	basesOf := func(e ast.Expr) []int {
+		call, ok := unparen(e).(*ast.CallExpr)
+		if !ok {
+			return nil
+		}
+		if id, ok := unparen(call.Fun).(*ast.SelectorExpr); !ok || id.Sel.Name != "Min" {
+			if id2, ok := unparen(call.Fun).(*ast.Ident); !ok || id2.Name != "min" {
+				return nil
+			}
+		}
+		var ps []int
+		ast.Inspect(call, func(x ast.Node) bool {
+			if c2, ok := x.(*ast.CallExpr); ok && len(c2.Args) == 0 {
+				if sel, ok := unparen(c2.Fun).(*ast.SelectorExpr); ok && sel.Sel.Name == "Level" {
+					if id, ok := unparen(sel.X).(*ast.Ident); ok {
+						if pi, ok := pidx[id.Name]; ok {
+							ps = append(ps, pi)
+						}
+					}
+				}
+			}
+			return true
+		})
+		return ps
+	}
+	// the level variable: assigned Min(p.Level(), q.Level())
+	var lvName string
+	var ps []int
+	for _, st := range fd.Body.List {
+		if as, ok := st.(*ast.AssignStmt); ok && len(as.Lhs) == len(as.Rhs) {
+			for i, l := range as.Lhs {
+				if id, ok := l.(*ast.Ident); ok {
+					if b := basesOf(as.Rhs[i]); len(b) >= 2 {
+						lvName, ps = id.Name, b
+					}
+				}
+			}
+		}
+	}
+	res := -1
+	if lvName != "" {
+		// named result, or returned explicitly
+		k := 0
+		for _, fl := range fd.Type.Results.List {
+			for _, nm := range fl.Names {
+				if nm.Name == lvName {
+					res = k
+				}
+				k++
+			}
+			if len(fl.Names) == 0 {
+				k++
+			}
+		}
+		if ret, ok := fd.Body.List[len(fd.Body.List)-1].(*ast.ReturnStmt); ok {
+			for i, r := range ret.Results {
+				if id, ok := unparen(r).(*ast.Ident); ok && id.Name == lvName {
+					res = i
+				}
+			}
+		}
+	} else if ret, ok := fd.Body.List[len(fd.Body.List)-1].(*ast.ReturnStmt); ok {
+		for i, r := range ret.Results {
+			if b := basesOf(r); len(b) >= 2 {
+				res, ps = i, b
+			}
+		}
+	}
+	if res < 0 || len(ps) < 2 {
+		return nil
+	}
+	a := &levelAccessor{res, ps}
+	levelAccessorCache[f] = a
+	return a
+}
+
+// levelAccessorOf: the assignment takes its values from one call of a level accessor.
+func levelAccessorOf(info *types.Info, as *ast.AssignStmt) *levelAccessor {
+	if len(as.Rhs) != 1 || len(as.Lhs) < 1 {
+		return nil
+	}
+	call, ok := unparen(as.Rhs[0]).(*ast.CallExpr)
+	if !ok {
+		return nil
+	}
+	f := calleeFunc(info, call)
+	if f == nil || f.Pkg() == nil || !strings.HasPrefix(f.Pkg().Path(), core.ModPath) {
+		return nil
+	}
+	a := levelAccessors(f)
+	if a == nil || a.result >= len(as.Lhs) {
+		return nil
+	}
+	return a
 }
